@@ -21,11 +21,14 @@ def run(ctx, br):
     for t in touts:
         for tr, stalls in (("adapter", ["silent", "late", "write", "flush", "closing"]), ("nats", ["silent", "late", "link"]), ("http", ["silent", "late", "body", "midbody"])):
             for st in stalls:
-                for oneway in ([False, True] if st in ("write", "flush") else [False]):
+                for oneway in ([False, True] if st in ("write", "flush") or (tr == "nats" and st == "link") else [False]):
                     reps = 1 if quick else 3
                     for _ in range(reps):
                         late = t // 1000 + rng.choice([20, 60, 150])
-                        if st == "link":
+                        if st == "link" and oneway:
+                            # the link stalls for much LONGER than the timeout: a oneway is buffered and returns at once
+                            late = t // 1000 * 3 + 400
+                        elif st == "link":
                             if t < 20000:
                                 continue          # a link stall shorter than the timeout needs a timeout of some size
                             late = max(5, (t // 1000) * rng.choice([40, 60, 80]) // 100)
@@ -52,6 +55,8 @@ def run(ctx, br):
             return r["hang"]
         if over > ALLOW_US:
             return "returned %d us after its %d us timeout" % (over, q["timeout_us"])
+        if q.get("oneway") and q["transport"] == "nats" and r.get("code") == 0:
+            return None       # a oneway over NATS is handed to the connection's buffer and returns (nil) without waiting for the link
         if r.get("code") != 3:
             return "no response arrived in time but the call reported class %s (%s), not TIMED_OUT" % (r.get("code"), r.get("msg"))
         if q["transport"] != "http" and r.get("reglen") != 0:
